@@ -1,0 +1,290 @@
+//! Observation-only hooks used by the model-based verification harness.
+//!
+//! This module is compiled only with `--cfg orca_so_whirlpools_verif`. Nothing in here changes a
+//! value the program uses: the hooks copy values into a thread-local buffer (and, when the
+//! environment variable `VERIF_TRACE_FILE` is set, append them to that file as one JSON line per
+//! record) so that recorded executions can be checked against the TLA+ specification.
+
+use crate::manager::fee_rate_manager::FeeRateManager;
+use crate::math::SwapStepComputation;
+use crate::state::{AdaptiveFeeInfo, Whirlpool};
+use std::cell::RefCell;
+use std::fmt::Write as _;
+use std::io::Write as _;
+
+thread_local! {
+    static EVENTS: RefCell<Vec<String>> = const { RefCell::new(Vec::new()) };
+}
+
+/// Record one JSON line.
+pub fn emit(line: String) {
+    if let Ok(path) = std::env::var("VERIF_TRACE_FILE") {
+        if let Ok(mut f) = std::fs::OpenOptions::new()
+            .create(true)
+            .append(true)
+            .open(path)
+        {
+            let mut l = line.clone();
+            l.push('\n');
+            let _ = f.write_all(l.as_bytes());
+        }
+    }
+    EVENTS.with(|e| e.borrow_mut().push(line));
+}
+
+/// Drain the records of the current thread.
+pub fn take_events() -> Vec<String> {
+    EVENTS.with(|e| std::mem::take(&mut *e.borrow_mut()))
+}
+
+/// Bytes handed to `sol_log_data` by the Pinocchio event emitter.
+pub fn pino_log_data(data: &[&[u8]]) {
+    let mut s = String::from("{\"k\":\"pinolog\",\"data\":[");
+    for (i, d) in data.iter().enumerate() {
+        if i > 0 {
+            s.push(',');
+        }
+        s.push('"');
+        for b in d.iter() {
+            let _ = write!(s, "{:02x}", b);
+        }
+        s.push('"');
+    }
+    s.push_str("]}");
+    emit(s);
+}
+
+fn fee_manager_json(m: &FeeRateManager) -> String {
+    match m {
+        FeeRateManager::Static { static_fee_rate } => {
+            format!("{{\"kind\":\"static\",\"static_rate\":{}}}", static_fee_rate)
+        }
+        FeeRateManager::Adaptive {
+            tick_group_index,
+            static_fee_rate,
+            adaptive_fee_constants: c,
+            adaptive_fee_variables: v,
+            core_tick_group_range_lower_bound: lo,
+            core_tick_group_range_upper_bound: hi,
+            ..
+        } => {
+            let (lr, lu, vr, tr, va) = (
+                v.last_reference_update_timestamp,
+                v.last_major_swap_timestamp,
+                v.volatility_reference,
+                v.tick_group_index_reference,
+                v.volatility_accumulator,
+            );
+            let (fp, dp, rf, cf, mx, gs, ms) = (
+                c.filter_period,
+                c.decay_period,
+                c.reduction_factor,
+                c.adaptive_fee_control_factor,
+                c.max_volatility_accumulator,
+                c.tick_group_size,
+                c.major_swap_threshold_ticks,
+            );
+            format!(
+                "{{\"kind\":\"adaptive\",\"static_rate\":{},\"group\":{},\"ref_ts\":\"{}\",\"major_ts\":\"{}\",\"vol_ref\":\"{}\",\"group_ref\":{},\"vol_acc\":\"{}\",\"filter\":{},\"decay\":{},\"reduction\":{},\"factor\":{},\"max_acc\":\"{}\",\"group_size\":{},\"major_ticks\":{},\"core_lo\":{},\"core_hi\":{}}}",
+                static_fee_rate, tick_group_index, lr, lu, vr, tr, va, fp, dp, rf, cf, mx, gs, ms,
+                match lo { Some((i, p)) => format!("[{},\"{}\"]", i, p), None => "null".to_string() },
+                match hi { Some((i, p)) => format!("[{},\"{}\"]", i, p), None => "null".to_string() },
+            )
+        }
+    }
+}
+
+/// Builds one `{"k":"swap", ...}` record per call of `swap_manager::swap`; emitted when dropped,
+/// so that early error returns are recorded too.
+pub struct SwapRecorder {
+    head: String,
+    steps: Vec<String>,
+    cur: String,
+    result: Option<String>,
+}
+
+impl SwapRecorder {
+    #[allow(clippy::too_many_arguments)]
+    pub fn begin(
+        whirlpool: &Whirlpool,
+        amount: u64,
+        sqrt_price_limit: u128,
+        amount_specified_is_input: bool,
+        a_to_b: bool,
+        timestamp: u64,
+        adaptive_fee_info: &Option<AdaptiveFeeInfo>,
+    ) -> Self {
+        let mut head = String::new();
+        let _ = write!(
+            head,
+            "\"amount\":\"{}\",\"limit\":\"{}\",\"exact_in\":{},\"a_to_b\":{},\"ts\":\"{}\",\"adaptive\":{},\"pool\":{{\"sqrt_price\":\"{}\",\"tick\":{},\"liq\":\"{}\",\"fee_rate\":{},\"proto_rate\":{},\"spacing\":{},\"fg_a\":\"{}\",\"fg_b\":\"{}\",\"proto_a\":\"{}\",\"proto_b\":\"{}\",\"reward_ts\":\"{}\"}}",
+            amount,
+            sqrt_price_limit,
+            amount_specified_is_input,
+            a_to_b,
+            timestamp,
+            adaptive_fee_info.is_some(),
+            whirlpool.sqrt_price,
+            whirlpool.tick_current_index,
+            whirlpool.liquidity,
+            whirlpool.fee_rate,
+            whirlpool.protocol_fee_rate,
+            whirlpool.tick_spacing,
+            whirlpool.fee_growth_global_a,
+            whirlpool.fee_growth_global_b,
+            whirlpool.protocol_fee_owed_a,
+            whirlpool.protocol_fee_owed_b,
+            whirlpool.reward_last_updated_timestamp,
+        );
+        SwapRecorder {
+            head,
+            steps: Vec::new(),
+            cur: String::new(),
+            result: None,
+        }
+    }
+
+    /// Called right after `compute_swap` of one loop iteration.
+    #[allow(clippy::too_many_arguments)]
+    pub fn step_computed(
+        &mut self,
+        amount_remaining: u64,
+        total_fee_rate: u32,
+        curr_liquidity: u128,
+        curr_sqrt_price: u128,
+        curr_tick_index: i32,
+        next_tick_index: i32,
+        next_tick_sqrt_price: u128,
+        sqrt_price_target: u128,
+        bounded_sqrt_price_target: u128,
+        skipped: bool,
+        curr_array_index: usize,
+        next_array_index: usize,
+        c: &SwapStepComputation,
+        fee_rate_manager: &FeeRateManager,
+    ) {
+        self.cur.clear();
+        let _ = write!(
+            self.cur,
+            "{{\"remaining\":\"{}\",\"rate\":{},\"liq\":\"{}\",\"p0\":\"{}\",\"tick0\":{},\"next_tick\":{},\"next_tick_price\":\"{}\",\"target\":\"{}\",\"btarget\":\"{}\",\"skip\":{},\"arr0\":{},\"arr1\":{},\"in\":\"{}\",\"out\":\"{}\",\"fee\":\"{}\",\"p1\":\"{}\",\"fm\":{}",
+            amount_remaining,
+            total_fee_rate,
+            curr_liquidity,
+            curr_sqrt_price,
+            curr_tick_index,
+            next_tick_index,
+            next_tick_sqrt_price,
+            sqrt_price_target,
+            bounded_sqrt_price_target,
+            skipped,
+            curr_array_index,
+            next_array_index,
+            c.amount_in,
+            c.amount_out,
+            c.fee_amount,
+            c.next_price,
+            fee_manager_json(fee_rate_manager),
+        );
+    }
+
+    /// Called when the loop applies the crossing update of an initialized tick.
+    pub fn crossed(&mut self, tick_index: i32, liquidity_net: i128) {
+        let _ = write!(
+            self.cur,
+            ",\"crossed\":{{\"tick\":{},\"net\":\"{}\"}}",
+            tick_index, liquidity_net
+        );
+    }
+
+    /// Called at the end of one loop iteration.
+    #[allow(clippy::too_many_arguments)]
+    pub fn step_done(
+        &mut self,
+        amount_remaining: u64,
+        amount_calculated: u64,
+        curr_liquidity: u128,
+        curr_tick_index: i32,
+        curr_protocol_fee: u64,
+        curr_fee_growth_global_input: u128,
+        curr_array_index: usize,
+    ) {
+        let _ = write!(
+            self.cur,
+            ",\"remaining1\":\"{}\",\"calculated1\":\"{}\",\"liq1\":\"{}\",\"tick1\":{},\"proto1\":\"{}\",\"fg1\":\"{}\",\"arr2\":{}}}",
+            amount_remaining,
+            amount_calculated,
+            curr_liquidity,
+            curr_tick_index,
+            curr_protocol_fee,
+            curr_fee_growth_global_input,
+            curr_array_index,
+        );
+        self.steps.push(std::mem::take(&mut self.cur));
+    }
+
+    /// Called just before `swap` returns successfully.
+    #[allow(clippy::too_many_arguments)]
+    pub fn finish(
+        &mut self,
+        amount_a: u64,
+        amount_b: u64,
+        lp_fee: u64,
+        next_liquidity: u128,
+        next_tick_index: i32,
+        next_sqrt_price: u128,
+        next_fee_growth_global: u128,
+        next_protocol_fee: u64,
+        next_adaptive_fee_info: &Option<AdaptiveFeeInfo>,
+    ) {
+        let afv = match next_adaptive_fee_info {
+            None => "null".to_string(),
+            Some(i) => {
+                let v = i.variables;
+                let (lr, lu, vr, tr, va) = (
+                    v.last_reference_update_timestamp,
+                    v.last_major_swap_timestamp,
+                    v.volatility_reference,
+                    v.tick_group_index_reference,
+                    v.volatility_accumulator,
+                );
+                format!(
+                    "{{\"ref_ts\":\"{}\",\"major_ts\":\"{}\",\"vol_ref\":\"{}\",\"group_ref\":{},\"vol_acc\":\"{}\"}}",
+                    lr, lu, vr, tr, va
+                )
+            }
+        };
+        self.result = Some(format!(
+            "{{\"amount_a\":\"{}\",\"amount_b\":\"{}\",\"lp_fee\":\"{}\",\"liq\":\"{}\",\"tick\":{},\"sqrt_price\":\"{}\",\"fg\":\"{}\",\"proto\":\"{}\",\"afv\":{}}}",
+            amount_a,
+            amount_b,
+            lp_fee,
+            next_liquidity,
+            next_tick_index,
+            next_sqrt_price,
+            next_fee_growth_global,
+            next_protocol_fee,
+            afv
+        ));
+    }
+}
+
+impl Drop for SwapRecorder {
+    fn drop(&mut self) {
+        let mut s = String::from("{\"k\":\"swap\",");
+        s.push_str(&self.head);
+        s.push_str(",\"steps\":[");
+        for (i, st) in self.steps.iter().enumerate() {
+            if i > 0 {
+                s.push(',');
+            }
+            s.push_str(st);
+        }
+        s.push_str("],\"result\":");
+        match &self.result {
+            Some(r) => s.push_str(r),
+            None => s.push_str("null"),
+        }
+        s.push('}');
+        emit(s);
+    }
+}
